@@ -52,7 +52,10 @@ Proof.
     match goal with |- s_last (fst (if ?b then _ else _)) = _ -> _ => destruct b end;
       cbn [fst s_last with_dumps]; intros E; apply flush_tree_last in E as [E | E]; auto.
   - unfold reopen. destruct (negb _); [auto|].
-    destruct (newest_dump _ _) as [[id tree] tsf]. destruct (_ <? _); cbn [fst s_last]; discriminate.
+    destruct (newest_dump _ _) as [[id tree] tsf].
+    (* 18b7c7d: the last flushed root after a restart is the loaded root *)
+    destruct (_ <? _); cbn [fst s_last s_root]; intros E; inversion E; subst; right; right;
+      rewrite ?set_node_ts_abs; reflexivity.
   - unfold snapshot. destruct (_ <? _); [auto|]. destruct (_ =? _); [auto|].
     set (st1 := if s_mut st then _ else st).
     assert (H1 : forall l, s_last st1 = Some l -> s_last st = Some l \/ abs l = abs (s_root st)).
